@@ -296,6 +296,22 @@ PROPS = {
         ],
         "assumptions": ["type_check under a context is compared with the closed wrapper on the implementation itself; no Coq mirror of type_check_rec's context handling (Model B) is part of this development yet"],
     },
+    "C19": {
+        "level": "proof",
+        "streams": ["C19"],
+        "case_ms": 5000,
+        "rule": "generated accepted programs (types int / bool; fully annotated and with omitted annotations) and, for each, every "
+                "rewrite applied once at a random applicable site - consistent renaming from a 12-name pool, redundant parentheses around a "
+                "third of all operands, an unused definition, `if true then e else e`, the immediately applied annotated identity at the "
+                "program's generated type, swapping adjacent independent function definitions, naming an arithmetic subexpression - and one "
+                "random sequence of up to three rewrites, optionally re-parenthesised: (accepted?, value) of original and rewritten program "
+                "through the implementation's pipeline must agree (values nameless; ground values exactly). The root of a function "
+                "definition's right-hand side is not a site (it must stay a syntactic value). Non-trivial: both accepted; distinct by pair.",
+        "trusted_base": TB_COMMON + [
+            "no reference implementation is involved in the stream: both programs run through the implementation; the rewrites are generated by ocaml/gen_prog.ml",
+        ],
+        "assumptions": ["the type used by the identity wrapper is the generator's intended type of the program"],
+    },
 }
 
 NOT_APPLICABLE = {}
@@ -472,5 +488,14 @@ MANIFEST_TEXT = {
         "design_ref": "DESIGN.md section 4, C18",
         "note": "Restoration of contexts is observed on the implementation (every explored outcome), not proved for a mirror of type_check_rec.",
         "technique": "Coq proofs of the offset/lookup laws + differential testing of whnf/unify under contexts + peel-and-compare metamorphic testing of type_check",
+    },
+    "C19": {
+        "text": "Proved on the evaluator model: the if-true wrapper, the applied identity and an unused value definition evaluate to the "
+                "wrapped expression (the last through a proved de Bruijn law). All rewrites of the property, and sequences of them, are "
+                "checked as metamorphic relations on the implementation itself for generated programs at random applicable sites "
+                "(acceptance and value). One genuine violation is a recorded finding (D15).",
+        "design_ref": "DESIGN.md section 4, C19",
+        "note": "Partial proof: acceptance-side invariance is decided by the stream.",
+        "technique": "Coq proofs of the evaluation-side rewrite laws + metamorphic testing of all rewrites and rewrite sequences on the implementation",
     },
 }
